@@ -74,6 +74,20 @@ static int sc_write(int codec, int wide) { table_t* t = make_table(codec, wide);
         if (!rc && g_fail_at < 0) { rename(path, ref); } }
     unlink(path); return rc; }
 
+/* an application that does not stop at the first failed call: it keeps writing and closes normally. If close then says OK the file must be
+ * readable to the end of every column (what it holds is the application's business, that it is a consistent file is the writer's) */
+static int sc_write_on(int codec) { table_t* t = make_table(codec, 0); char path[600]; snprintf(path, sizeof path, "%s/wo_%d_%ld.parquet", TMP, codec, (long)getpid());
+    twrite_result_t res; vrng_t r; vrng_seed(&r, 7); unlink(path); TBL_KEEP_GOING = 1; ARM(); int created = tbl_write_path(&r, t, path, &res); DISARM(); TBL_KEEP_GOING = 0; int rc = 0;
+    if (created && res.close_called && res.close_status == CARQUET_OK) { carquet_error_t err = CARQUET_ERROR_INIT; ropen_t o; if (!rd_open(&o, path, IO_FREAD, 1, 1, &err)) { snprintf(msg, sizeof msg, "close returned OK (after %s failed) but the file cannot be opened (%s); allocation #%ld failed", res.first_bad_call ? res.first_bad_call : "nothing", err.message, g_fail_at); rc = 1; }
+        else { int ng = carquet_reader_num_row_groups(o.rd), nc = carquet_reader_num_columns(o.rd); if (nc > t->ncols) nc = t->ncols;
+            for (int g = 0; g < ng && !rc; g++) for (int c = 0; c < nc && !rc; c++) { carquet_column_reader_t* cr = carquet_reader_get_column(o.rd, g, c, &err); if (!cr) { snprintf(msg, sizeof msg, "close returned OK after %s failed, but column [%d,%d] of the file cannot be read (%s); allocation #%ld failed", res.first_bad_call ? res.first_bad_call : "nothing", g, c, err.message, g_fail_at); rc = 1; break; }
+                const tcol_t* col = &t->cols[c < t->ncols ? c : 0]; size_t es = col->type == CARQUET_PHYSICAL_BYTE_ARRAY ? sizeof(carquet_byte_array_t) : t_elem_size(col); if (es < 16) es = 16;
+                void* vals = malloc(es * 512 + 16); int16_t dl[512];
+                while (carquet_column_has_next(cr)) { int64_t n = carquet_column_read_batch(cr, vals, 512, dl, NULL); if (n < 0) { snprintf(msg, sizeof msg, "close returned OK after %s failed, but reading column [%d,%d] of the file fails; allocation #%ld failed", res.first_bad_call ? res.first_bad_call : "nothing", g, c, g_fail_at); rc = 1; break; } if (n == 0) break; }
+                free(vals); carquet_column_reader_free(cr); }
+            rd_close(&o); } }
+    unlink(path); return rc; }
+
 static int sc_read(const table_t* t, const char* file, int mode, int use_batch) { carquet_error_t err = CARQUET_ERROR_INIT; ropen_t o; ARM(); int opened = rd_open(&o, file, mode, 1, 1, &err); int rc = 0;
     if (opened) { int cmp = read_and_compare(o.rd, t, use_batch); DISARM(); if (cmp > 0) { snprintf(msg, sizeof msg, "%s read (%s) reported success with different content; allocation #%ld failed", use_batch ? "batch" : "column", IO_NAME[mode], g_fail_at); rc = 1; } rd_close(&o); }
     else { DISARM(); if (err.code == CARQUET_OK && g_failed) { snprintf(msg, sizeof msg, "open failed with error code OK"); rc = 1; } }
@@ -92,6 +106,7 @@ static int run_scenario(const char* sc, const char* file, const char* tdmp) {
     if (!strcmp(sc, "schema")) return sc_schema();
     if (!strncmp(sc, "write", 5)) { int codec = atoi(sc + 5); return sc_write(T_CODECS[codec % 5], 0); }
     if (!strcmp(sc, "widewrite")) return sc_write(CARQUET_COMPRESSION_UNCOMPRESSED, 1);
+    if (!strncmp(sc, "goon", 4)) { int codec = atoi(sc + 4); return sc_write_on(T_CODECS[codec % 5]); }
     if (!strcmp(sc, "misc")) return sc_misc();
     if (!strncmp(sc, "read", 4) || !strncmp(sc, "batch", 5) || !strncmp(sc, "dict", 4)) { int use_batch = sc[0] == 'b'; int mode = atoi(sc + (sc[0] == 'b' ? 5 : 4)); table_t* t; char ref[600];
         if (sc[0] == 'd') { __lsan_disable(); t = tbl_load(tdmp); __lsan_enable(); return sc_read(t, file, mode, 0); }
